@@ -240,3 +240,141 @@ Proof.
   { destruct o; try contradiction; [eapply get_bal|eapply getsub_bal|eapply disconnect_bal]; exact H. }
   split; [exact Hs|apply same_ledger_bal; exact Hs].
 Qed.
+
+(* ------------------------------------------------------------------------------------------ *)
+(* list operations on the appointments table *)
+
+Definition del (us : list (N * N)) (l : list app) : list app := filter (fun a => negb (mem_uuid (app_uuid a) us)) l.
+Definition repl (a : app) (l : list app) : list app := map (fun x => if uuid_eqb (app_uuid x) (app_uuid a) then a else x) l.
+Definition stored (l : list app) (a : app) : list app :=
+  match find_app l (app_uuid a) with Some _ => repl a l | None => l ++ [a] end.
+
+Lemma db_delete_apps_apps t us : db_apps (db_delete_apps t us) = del us (db_apps t).
+Proof. reflexivity. Qed.
+Lemma db_delete_apps_users t us : db_users (db_delete_apps t us) = db_users t.
+Proof. reflexivity. Qed.
+Lemma db_delete_apps_mem t us : gk_users (db_delete_apps t us) = gk_users t.
+Proof. reflexivity. Qed.
+
+Lemma find_app_cons x l u : find_app (x :: l) u = if uuid_eqb (app_uuid x) u then Some x else find_app l u.
+Proof. reflexivity. Qed.
+
+Lemma find_app_notin l u : ~ In u (map app_uuid l) -> find_app l u = None.
+Proof.
+  intros Hn. destruct (find_app l u) as [a|] eqn:E; [|reflexivity].
+  apply find_app_Some in E. destruct E as [Hi He]. exfalso. apply Hn. rewrite <- He. apply in_map. exact Hi.
+Qed.
+
+Lemma mem_uuid_single x u : mem_uuid x [u] = uuid_eqb x u.
+Proof. unfold mem_uuid. cbn [existsb]. apply orb_false_r. Qed.
+
+Lemma repl_notin a l : ~ In (app_uuid a) (map app_uuid l) -> repl a l = l.
+Proof.
+  induction l as [|x l IH]; intros Hn; [reflexivity|]. unfold repl in *. cbn [map] in *.
+  destruct (uuid_eqb (app_uuid x) (app_uuid a)) eqn:E.
+  - apply uuid_eqb_eq in E. exfalso. apply Hn. left. exact E.
+  - rewrite IH; [reflexivity|]. intros Hi. apply Hn. right. exact Hi.
+Qed.
+
+Lemma ssum_repl (p : app -> bool) a a0 l :
+  NoDup (map app_uuid l) -> find_app l (app_uuid a) = Some a0 ->
+  ssum (filter p (repl a l)) + (if p a0 then aslots a0 else 0) = ssum (filter p l) + (if p a then aslots a else 0).
+Proof.
+  induction l as [|x l IH]; intros Hnd Hf; [discriminate|].
+  cbn [map] in Hnd. apply NoDup_cons_iff in Hnd. destruct Hnd as [Hx Hnd].
+  rewrite find_app_cons in Hf. unfold repl. cbn [map]. fold (repl a l).
+  destruct (uuid_eqb (app_uuid x) (app_uuid a)) eqn:E.
+  - inversion Hf; subst x; clear Hf. apply uuid_eqb_eq in E. rewrite E in Hx.
+    rewrite (repl_notin a l Hx). cbn [filter]. destruct (p a), (p a0); rewrite ?ssum_cons; lia.
+  - specialize (IH Hnd Hf). cbn [filter]. destruct (p x); rewrite ?ssum_cons; lia.
+Qed.
+
+Lemma del_notin u l : ~ In u (map app_uuid l) -> del [u] l = l.
+Proof.
+  intros Hn. unfold del. apply filter_true. intros a Ha. rewrite mem_uuid_single.
+  destruct (uuid_eqb (app_uuid a) u) eqn:E; [|reflexivity].
+  apply uuid_eqb_eq in E. exfalso. apply Hn. rewrite <- E. apply in_map. exact Ha.
+Qed.
+
+Lemma ssum_del1 (p : app -> bool) u l :
+  NoDup (map app_uuid l) ->
+  ssum (filter p l) = ssum (filter p (del [u] l))
+                      + match find_app l u with Some a0 => if p a0 then aslots a0 else 0 | None => 0 end.
+Proof.
+  induction l as [|x l IH]; intros Hnd; [reflexivity|].
+  cbn [map] in Hnd. apply NoDup_cons_iff in Hnd. destruct Hnd as [Hx Hnd].
+  rewrite find_app_cons. unfold del. cbn [filter]. fold (del [u] l). rewrite mem_uuid_single.
+  destruct (uuid_eqb (app_uuid x) u) eqn:E; cbn [negb].
+  - apply uuid_eqb_eq in E. rewrite E in Hx. rewrite (del_notin u l Hx).
+    destruct (p x); rewrite ?ssum_cons; lia.
+  - specialize (IH Hnd). cbn [filter]. destruct (p x); rewrite ?ssum_cons; lia.
+Qed.
+
+Lemma del_repl a l : del [app_uuid a] (repl a l) = del [app_uuid a] l.
+Proof.
+  induction l as [|x l IH]; [reflexivity|]. unfold repl, del in *. cbn [map filter]. rewrite !mem_uuid_single.
+  destruct (uuid_eqb (app_uuid x) (app_uuid a)) eqn:E.
+  - rewrite uuid_eqb_refl. cbn [negb]. exact IH.
+  - rewrite E. cbn [negb]. f_equal. exact IH.
+Qed.
+
+Lemma del_snoc a l : del [app_uuid a] (l ++ [a]) = del [app_uuid a] l.
+Proof.
+  unfold del. rewrite filter_app. cbn [filter]. rewrite mem_uuid_single, uuid_eqb_refl. cbn [negb]. apply app_nil_r.
+Qed.
+
+Lemma del_stored a l : del [app_uuid a] (stored l a) = del [app_uuid a] l.
+Proof. unfold stored. destruct (find_app l (app_uuid a)); [apply del_repl|apply del_snoc]. Qed.
+
+(* rows of other users *)
+Lemma filter_ofu_repl v a l : a_user a <> v -> filter (ofu v) (repl a l) = filter (ofu v) l.
+Proof.
+  intros Hv. induction l as [|x l IH]; [reflexivity|]. unfold repl in *. cbn [map filter].
+  destruct (uuid_eqb (app_uuid x) (app_uuid a)) eqn:E.
+  - apply uuid_eqb_eq in E. assert (Hx : a_user x = a_user a) by (unfold app_uuid in E; congruence).
+    assert (E1 : ofu v a = false) by (apply N.eqb_neq; exact Hv).
+    assert (E2 : ofu v x = false) by (apply N.eqb_neq; congruence).
+    rewrite E1, E2. exact IH.
+  - destruct (ofu v x); [f_equal|]; exact IH.
+Qed.
+
+Lemma filter_ofu_snoc v a l : a_user a <> v -> filter (ofu v) (l ++ [a]) = filter (ofu v) l.
+Proof.
+  intros Hv. rewrite filter_app. cbn [filter].
+  assert (E1 : ofu v a = false) by (apply N.eqb_neq; exact Hv). rewrite E1. apply app_nil_r.
+Qed.
+
+Lemma filter_ofu_stored v a l : a_user a <> v -> filter (ofu v) (stored l a) = filter (ofu v) l.
+Proof. intros Hv. unfold stored. destruct (find_app l (app_uuid a)); [apply filter_ofu_repl|apply filter_ofu_snoc]; exact Hv. Qed.
+
+Lemma filter_ofu_del1 v loc u l : u <> v -> filter (ofu v) (del [(loc, u)] l) = filter (ofu v) l.
+Proof.
+  intros Hv. unfold del. rewrite filter_filter. apply filter_ext_in'. intros a _. rewrite mem_uuid_single.
+  destruct (uuid_eqb (app_uuid a) (loc, u)) eqn:E; cbn [negb andb]; [|reflexivity].
+  apply uuid_eqb_eq in E. apply app_uuid_user in E. symmetry. apply N.eqb_neq. congruence.
+Qed.
+
+Lemma blob_eqb_refl b : blob_eqb b b = true.
+Proof. unfold blob_eqb. rewrite !N.eqb_refl. destruct (b_pay b); [apply N.eqb_refl|reflexivity]. Qed.
+
+(* is the version (loc, u, b) held in the table? (the test of TowerMon.ledger_step) *)
+Definition held_version (l : list app) (loc u : N) (b : blob) : bool :=
+  existsb (fun a => uuid_eqb (app_uuid a) (loc, u) && blob_eqb (a_blob a) b) l.
+
+Lemma held_version_stored l a : held_version (stored l a) (a_loc a) (a_user a) (a_blob a) = true.
+Proof.
+  unfold held_version. apply existsb_exists. exists a. split.
+  - unfold stored. destruct (find_app l (app_uuid a)) as [a0|] eqn:E.
+    + apply find_app_Some in E. destruct E as [Hi He]. unfold repl. apply in_map_iff. exists a0. split; [|exact Hi].
+      rewrite He, uuid_eqb_refl. reflexivity.
+    + apply in_or_app. right. left. reflexivity.
+  - change (a_loc a, a_user a) with (app_uuid a). rewrite uuid_eqb_refl, blob_eqb_refl. reflexivity.
+Qed.
+
+Lemma held_version_del l loc u b : held_version (del [(loc, u)] l) loc u b = false.
+Proof.
+  unfold held_version. destruct (existsb _ _) eqn:E; [|reflexivity].
+  apply existsb_exists in E. destruct E as [a [Hi Ha]]. unfold del in Hi. apply filter_In in Hi.
+  destruct Hi as [_ Hn]. rewrite mem_uuid_single in Hn. apply andb_true_iff in Ha. destruct Ha as [Ha _].
+  rewrite Ha in Hn. discriminate.
+Qed.
